@@ -71,6 +71,12 @@ PROPS["C17"] = {"engines": [{"engine": "input", "shim": False}], "rule": INPUT_R
 PROPS["C18"] = {"engines": [{"engine": "input", "shim": False}], "rule": INPUT_RULE,
                 "explanation": "Identity from content only: all short contents x all compositions x empty writes, and buffer-straddling splits of a 20000-byte content, give (blake3, len) and the file at the independently derived path; the hash<->path map is checked on 32768 hashes (every byte position x value). The 'random' clauses are not covered."}
 
+PROPS["C10"] = {"engines": [{"engine": "waldmg", "shim": False}],
+                "rule": ("for every cleanly closed store produced by the listed histories the un-checkpointed records are located with an independent decoder; every truncation "
+                         "offset of that tail (later segments dropped) and every byte of every checksum and payload x the stated values is applied to a copy, which is opened "
+                         "with Cas::open under catch_unwind. states = distinct damaged inputs, transitions = opens."),
+                "explanation": "A damaged log is rejected with an error or yields exactly the index (key -> hash,size) after the longest undamaged prefix, never a panic, for every truncation offset and every single-byte change of checksum/payload."}
+
 ENGINES = [
     {"name": "seq", "path": "harness/src/seq.rs", "serves_properties": ["C01", "C02", "C07", "C12", "C13"],
      "kind_free_text": "bounded-exhaustive operation-sequence enumeration on the real store vs BTreeMap model + independent on-disk decoders"},
@@ -78,10 +84,12 @@ ENGINES = [
      "kind_free_text": "one EIO at every mutating libc call of every bounded history (LD_PRELOAD shim), continuation + reopen vs per-key allowed-value model"},
     {"name": "input", "path": "harness/src/input.rs", "serves_properties": ["C16", "C17", "C18"],
      "kind_free_text": "exhaustive small-scope input enumeration into the real codecs / range reads / chunked puts, under catch_unwind and an allocation guard"},
+    {"name": "waldmg", "path": "harness/src/waldmg.rs", "serves_properties": ["C10"],
+     "kind_free_text": "every truncation offset / single-byte change of the un-checkpointed WAL tail of bounded-history stores, opened with the real Cas::open"},
     {"name": "crash", "path": "harness/src/crash.rs", "serves_properties": ["C03", "C20"],
      "kind_free_text": "every syscall boundary of every bounded history: live-directory crash images via LD_PRELOAD shim, recovered and checked, nested in recovery"},
 ]
 
 # properties not (yet) claimed; kept current as engines land
 NOT_APPLICABLE = {p: "engine not built yet in this round (planned, see DESIGN.md §3)" for p in
-                  ["C04", "C05", "C06", "C08", "C09", "C10", "C11", "C15", "C19"]}
+                  ["C04", "C05", "C06", "C08", "C09", "C11", "C15", "C19"]}
